@@ -127,6 +127,48 @@ class MainGrid(MainConfig):
                                                                   (v('pmax') + v('pmin')) * N1 == -2 * o(cx, 'meshshifty') * size))]
 
 
+class MainVoltage(Contract):
+    """main(): from the accelerating voltage to the synchrotron frequency (C17).  Everything main derives next (synchrotron
+    frequency, momentum compaction, natural bunch length, the frequency range of the impedance, every map) divides by
+    V_eff = sqrt(V_RF^2 - V0^2), V0 the radiation loss per turn: a run goes on only if that square root is taken of a positive
+    number.  (With V_RF <= V0 it is NaN or 0; the bunch length becomes NaN, the impedance is sampled up to a NaN frequency and the
+    parallel-plates model loops over a NaN number of modes -- the program neither completes nor stops with a message.)"""
+    name = 'main'
+    tu = 'src/main.cpp'
+    tu_filter = 'main'
+    aux_tus = [('src/main.cpp', 'vfps::')]
+    params = ['argc', 'argv']
+    tags = {'C17'}
+    slice_from = 'V_RF'
+    slice_until = 'fs'
+    slice_externals = {'opts': 'vfps::ProgramOptions'}
+    replay = lambda self, o, model, pid: {'driver': 'main', 'scenarios': ['voltage']}
+
+    def requires(self, cx):
+        return []
+
+    def assigns(self, cx):
+        return [('s', 'ghost.*'), ('s', 'arg:*')]
+
+    @property
+    def calls(self):
+        noop = lambda ex, n, st, objn, argn, this_override=None: VoidV()
+        strv = lambda ex, n, st, objn, argn, this_override=None: Opaque('string')
+        ss = lambda ex, n, st, objn, argn, this_override=None: ObjRef(this_override, 'std::stringstream')
+        return {'printText': noop, 'operator+': strv, 'operator<<': strv, 'str': strv,
+                'ctor:std::basic_stringstream<char>': ss, 'ctor:std::stringstream': ss}
+
+    def ensures(self, cx):
+        if isinstance(cx.ret, IntV):
+            return []           # the run was refused with a message
+        v = cx.v
+        arg = v('V_RF') * v('V_RF') - v('V0') * v('V0')
+        # libm (IEEE): sqrt(x) > 0 only for x > 0 (sqrt of a negative number is NaN, which compares false; sqrt(0) = 0)
+        from .z import SQRT
+        ax = Implies(SQRT(arg) > 0, arg > 0)
+        return [('effective_voltage_is_a_positive_number', {'C17'}, Implies(ax, arg > 0))]
+
+
 class MainTrackingFile(Contract):
     """main(): reading the particle tracking file (C15/C17).  For every content of the file — any number of values, malformed
     text, coordinates far outside the grid — each stored particle starts on the grid (0 <= x <= nx-1, 0 <= y <= ny-1): the
